@@ -2,3 +2,9 @@ from .plan import register
 
 register('C03', 'C03-layout', 'B', 'bounded.c03_layout:run', shards={'quick': 8, 'thorough': 16})
 register('C01', 'G1G2-typestate', 'G', 'vcheck.gtasks:run_g1g2')
+register('C16', 'C16-roundtrip', 'B', 'bounded.c16_roundtrip:run', shards={'quick': 8, 'thorough': 16})
+register('C17', 'C17-store', 'B', 'bounded.c17_bus_store:run_store', shards={'quick': 2, 'thorough': 4})
+register('C17', 'C17-history', 'B', 'bounded.c17_bus_store:run_history_phase', shards={'quick': 10, 'thorough': 16})
+register('C17', 'C17-mutation', 'B', 'bounded.c17_bus_store:run_mutation', shards={'quick': 4, 'thorough': 8})
+register('C18', 'C18-parallel', 'B', 'bounded.c18_parallel:run', shards={'quick': 8, 'thorough': 16})
+register('C19', 'C19-quilt-batch', 'B', 'bounded.c19_quilt_batch:run', shards={'quick': 8, 'thorough': 16})
